@@ -190,6 +190,19 @@ def pp_text(sol, T, phases, pt, punch):
     return "\n".join(lines) + "\n" + punch + "END\n"
 
 
+def pp_retarget_text(sol, T, phases, pt, punch):
+    """The same assemblage twice on a stored solution: first with every target moved to the next value of TARGETS (1 mol
+    each, no restriction), then - without any initial-solution calculation in between - with the point's own targets,
+    amounts and restriction.  The second reaction row is the judged one."""
+    t, m, r = pt
+    t1 = tuple(TARGETS[(TARGETS.index(x) + 1) % len(TARGETS)] for x in t)
+    first = pp_text(sol, T, phases, (t1, tuple(1.0 for _ in m), None), "")
+    first = first[first.index("EQUILIBRIUM_PHASES 1"):]
+    second = pp_text(sol, T, phases, pt, "")
+    second = second[second.index("EQUILIBRIUM_PHASES 1"):]
+    return ("SOLUTION 1\n temp %s\n%s\n%sEND\nUSE solution 1\n%sUSE solution 1\n%s" % (fmt(T), SOLS[sol].rstrip("\n"), punch, first, second))
+
+
 def react_rows(r, n=1):
     rows = r["sel"].get(n)
     if rows is None:
@@ -283,11 +296,14 @@ def case_name(case):
 def run_pp(case):
     phases = case["phases"]
     punch = O.punch_block(1, phases)
-    pts = [tuple(tuple(x) if isinstance(x, list) else x for x in case["point"])] if case.get("point") is not None else pp_points(len(phases), case["scheme"])
+    pts = [tuple(tuple(x) if isinstance(x, list) else x for x in case["point"])] if case.get("point") is not None else pp_points(len(phases), "full-f1" if case["scheme"] == "retarget" else case["scheme"])
 
     def gen():
         for pt in pts:
-            yield (list(pt), pp_text(case["sol"], case["T"], phases, pt, punch), (lambda r, pt=pt: judge_pp(react_rows(r), phases, pt)), "")
+            if case["scheme"] == "retarget":
+                yield (list(pt), pp_retarget_text(case["sol"], case["T"], phases, pt, punch), (lambda r, pt=pt: judge_pp(react_rows(r)[-1:], phases, pt)), "")
+            else:
+                yield (list(pt), pp_text(case["sol"], case["T"], phases, pt, punch), (lambda r, pt=pt: judge_pp(react_rows(r), phases, pt)), "")
     return run_points(case, gen())
 
 
@@ -682,6 +698,11 @@ def pp_cases(tier):
         n = len(list(pp_points(k, scheme)))
         bounds.append(("pp: subsets of size %d (%d) x solutions %s x T %s x (target,moles)^%d x restriction (%s) = %d points each" % (
             k, len(subsets(k)), sols, ts, k, "any position" if scheme == "full" else F1, n), cs))
+    # the same assemblage re-equilibrated with other targets on a stored solution (the engine may reuse its equation system)
+    for k, sols in ((1, SOL_ORDER if tier != "quick" else ["hard", "sea", "amd"]), (2, ["hard"] if tier == "quick" else QUICK_PAIR_SOLS)):
+        cs = [{"part": "pp", "sol": s, "T": 25.0, "phases": sub, "scheme": "retarget"} for s in sols for sub in subsets(k)]
+        bounds.append(("pp retarget: subsets of size %d (%d) x solutions %s x 25 C: assemblage run with shifted targets, then with (target,moles)^%d x restriction (%s) = %d points each, second run judged" % (
+            k, len(subsets(k)), sols, k, F1, len(list(pp_points(k, "full-f1")))), cs))
     if tier == "thorough":
         cs = [{"part": "pp", "sol": s, "T": 25.0, "phases": sub, "scheme": "tri"} for s in TRI_SOLS for sub in subsets(3)]
         bounds.append(("pp: subsets of size 3 (%d) x solutions %s x 25 C x targets^3 x 9 amount patterns x restriction (%s) = %d points each" % (
